@@ -110,13 +110,16 @@ def c16_matlab_concat(f1: str, tail: int) -> bool:
 
     def fake_parse(text):
         captured.append(text)
-        return old_parse("")               # an implementation may parse file by file: let it go on
+        with concrete():                   # an implementation may parse file by file: hand back an empty module and let it go on
+            return old_parse("")
 
     old_open = _mw.__dict__.get("open")
     old_parse = parser.Module.parseString
     _mw.open = fake_open
     parser.Module.parseString = staticmethod(fake_parse)
     w.generate_content = lambda *a, **k: None
+    w.wrap_namespace = lambda *a, **k: None
+    w.generate_wrapper = lambda *a, **k: None
     try:
         try:
             w.wrap(["one.i", "two.i"], "/nonexistent")
